@@ -86,6 +86,7 @@ theorem B2E.trans' {a b c : State} (h1 : B2E a b) (h2 : B2E b c) : B2E a c :=
 macro "b2e_tac" : tactic => `(tactic| (splits <;> simp_all [B2E]))
 
 @[simp] theorem b2e_emit (s : State) (e : String) : B2E s (s.emit e) := ⟨rfl, rfl, rfl, rfl, rfl⟩
+@[simp] theorem b2e_emitEv (s : State) (k : EvKind) (r : String) : B2E s (s.emitEv k r) := ⟨rfl, rfl, rfl, rfl, rfl⟩
 @[simp] theorem b2e_emitCaller (s : State) (c : Nat) (e b : String) : B2E s (s.emitCaller c e b) := ⟨rfl, rfl, rfl, rfl, rfl⟩
 @[simp] theorem b2e_storeFatal (s : State) (t : String) : B2E s (storeFatal s t) := by unfold storeFatal; b2e_tac
 @[simp] theorem b2e_cancelFlows (s : State) (e : CErr) : B2E s (cancelFlows s e) := by unfold cancelFlows; splits <;> simp [B2E, Latch.cancel]
@@ -190,7 +191,7 @@ theorem b2e_foldl_emit {α : Type} (l : List α) (f : α → String) (s : State)
 @[simp] theorem b2e_initTailEvents (s : State) (ph : Phase) (st : String) : B2E s (initTailEvents s ph st) := by
   unfold initTailEvents
   dsimp only
-  generalize hs1 : (if s.rtDoneReg = true then s.emit _ else s) = s1
+  generalize hs1 : (if s.rtDoneReg = true then s.emitEv _ _ else s) = s1
   have h0 : B2E s s1 := by rw [← hs1]; split <;> exact ⟨rfl, rfl, rfl, rfl, rfl⟩
   exact B2E.trans' h0 (B2E.trans' (b2e_foldl_emit _ _ _) ⟨rfl, rfl, rfl, rfl, rfl⟩)
 @[simp] theorem b2e_disarm (s : State) : B2E s (disarmShutdownTimers s) := ⟨rfl, rfl, rfl, rfl, rfl⟩
